@@ -168,6 +168,9 @@ func (p *VipnodePool) Update(ctx context.Context, sig string, nodeID string, non
 		if errOld := p.verify(sig, "vipnode_update", nodeID, nonce, oldUpdateRequest{req.Peers, req.BlockNumber}); errOld != nil {
 			return nil, err
 		}
+		// The old signature only covers Peers and BlockNumber: don't act on
+		// the rest of the request, anybody could have added or changed it.
+		req.PeerInfo = nil
 	}
 
 	// Updates of one node must not overlap: both would bill the time since the
